@@ -214,6 +214,13 @@ func NewPeer(
 
 	bus.Publish(event.NewMessage(event.PeerInfoName, event.PeerInfo{Info: p.PeerInfo()}))
 
+	// No retry round survives a restart: the marks left by rounds that were in flight are cleared
+	// before the retry loop starts, otherwise those replicators would never be retried again.
+	err = p.clearInterruptedReplicatorRetries(ctx)
+	if err != nil {
+		return nil, err
+	}
+
 	go p.handleReplicatorRetries(ctx)
 
 	err = p.loadAndPublishReplicators(ctx)
